@@ -151,6 +151,8 @@ type mergeProcessor struct {
 
 	// composites is a list of composites that need to be merged.
 	composites *list.List
+	// loadedComposites contains the CIDs of the composites that have been added to composites.
+	loadedComposites map[cid.Cid]struct{}
 	// missingEncryptionBlocks is a list of blocks that we failed to fetch
 	missingEncryptionBlocks map[cidlink.Link]struct{}
 	// availableEncryptionBlocks is a list of blocks that we have successfully fetched
@@ -175,6 +177,7 @@ func (db *DB) newMergeProcessor(
 		col:                       col,
 		docIDs:                    make(map[string]struct{}),
 		composites:                list.New(),
+		loadedComposites:          make(map[cid.Cid]struct{}),
 		missingEncryptionBlocks:   make(map[cidlink.Link]struct{}),
 		availableEncryptionBlocks: make(map[cidlink.Link]*coreblock.Encryption),
 	}, nil
@@ -191,6 +194,15 @@ func newMergeTarget() mergeTarget {
 	}
 }
 
+// add adds the given block to the merge target, keeping headHeight as the
+// greatest height among the blocks of the target.
+func (mt *mergeTarget) add(c cid.Cid, block *coreblock.Block) {
+	mt.heads[c] = block
+	if block.Delta.GetPriority() > mt.headHeight {
+		mt.headHeight = block.Delta.GetPriority()
+	}
+}
+
 // loadComposites retrieves and stores into the merge processor the composite blocks for the given
 // CID until it reaches a block that has already been merged or until we reach the genesis block.
 func (mp *mergeProcessor) loadComposites(
@@ -200,6 +212,10 @@ func (mp *mergeProcessor) loadComposites(
 ) error {
 	if _, ok := mt.heads[blockCid]; ok {
 		// We've already processed this block.
+		return nil
+	}
+	if _, ok := mp.loadedComposites[blockCid]; ok {
+		// This block has already been queued via another path of the incoming DAG.
 		return nil
 	}
 
@@ -217,16 +233,24 @@ func (mp *mergeProcessor) loadComposites(
 	// of the composite DAG. However, the new block and its children might have branched off from an older block.
 	// In this case, we also need to walk back the merge target's DAG until we reach a common block.
 	if block.Delta.GetPriority() >= mt.headHeight {
-		mp.composites.PushFront(block)
+		mp.loadedComposites[blockCid] = struct{}{}
 		for _, head := range block.Heads {
 			err := mp.loadComposites(ctx, head.Cid, mt)
 			if err != nil {
 				return err
 			}
 		}
+		// Parents are queued before their children so that blocks are merged in causal order.
+		mp.composites.PushBack(block)
 	} else {
+		// Walk back only the highest blocks of the merge target. The lower ones must remain part
+		// of the target, otherwise they could later be mistaken for blocks that haven't been merged.
 		newMT := newMergeTarget()
-		for _, b := range mt.heads {
+		for c, b := range mt.heads {
+			if b.Delta.GetPriority() < mt.headHeight {
+				newMT.add(c, b)
+				continue
+			}
 			for _, link := range b.Heads {
 				nd, err := mp.blockLS.Load(linking.LinkContext{Ctx: ctx}, link, coreblock.BlockSchemaPrototype)
 				if err != nil {
@@ -238,8 +262,7 @@ func (mp *mergeProcessor) loadComposites(
 					return err
 				}
 
-				newMT.heads[link.Cid] = childBlock
-				newMT.headHeight = childBlock.Delta.GetPriority()
+				newMT.add(link.Cid, childBlock)
 			}
 		}
 		return mp.loadComposites(ctx, blockCid, newMT)
@@ -543,9 +566,8 @@ func getHeadsAsMergeTarget(ctx context.Context, key keys.HeadstoreKey) (mergeTar
 			return mergeTarget{}, err
 		}
 
-		mt.heads[cid] = block
-		// All heads have the same height so overwriting is ok.
-		mt.headHeight = block.Delta.GetPriority()
+		// Heads may have different heights, the target height is the greatest one.
+		mt.add(cid, block)
 	}
 	return mt, nil
 }
